@@ -172,6 +172,7 @@ theorem item_sound (tb : Tables) (ht : tb.Trans) (hu : tb.InstUp) (xsd11 : Bool)
         exfalso
         cases l <;> simp [Ty.strip, Ty.cls, Leaf.cls, coreCls] at hcore
         case kind k nt => cases k <;> simp [Leaf.cls, coreCls] at hcore
+        case kindT k nt ta o' => cases k <;> simp [Leaf.cls, coreCls] at hcore
       | func aS rS =>
         simp only [Ty.strip, Ty.cls, coreCls, Bool.and_eq_true] at hcore
         obtain ⟨⟨⟨_, _⟩, hargs⟩, hret⟩ := hcore
@@ -208,6 +209,13 @@ theorem item_sound (tb : Tables) (ht : tb.Trans) (hu : tb.InstUp) (xsd11 : Bool)
             | func sa sr => simp [itemFn, matchLeaf] at hx
             | map es => simp [itemFn, matchLeaf] at hx
             | array ms => simp [itemFn, matchLeaf] at hx
+          case kindT k nt ta o' =>
+            cases x with
+            | node k' n kids root => simp [matchLeaf, matchLeafNode]
+            | atom c => simp [itemFn, matchLeaf] at hx
+            | func sa sr => simp [itemFn, matchLeaf] at hx
+            | map es => simp [itemFn, matchLeaf] at hx
+            | array ms => simp [itemFn, matchLeaf] at hx
       | atomic a1 =>
         cases S with
         | empty => exact absurd rfl hS
@@ -217,6 +225,7 @@ theorem item_sound (tb : Tables) (ht : tb.Trans) (hu : tb.InstUp) (xsd11 : Bool)
         | leaf l o =>
           cases l <;> simp [Ty.strip, Ty.cls, Leaf.cls, coreCls] at hcore
           case kind k nt => cases k <;> simp [Leaf.cls, coreCls] at hcore
+          case kindT k nt ta o' => cases k <;> simp [Leaf.cls, coreCls] at hcore
           case atomic a2 =>
             cases x with
             | atom c =>
@@ -237,8 +246,10 @@ theorem item_sound (tb : Tables) (ht : tb.Trans) (hu : tb.InstUp) (xsd11 : Bool)
         | leaf l o =>
           cases l <;> simp [Ty.strip, Ty.cls, Leaf.cls, coreCls] at hcore
           case kind k nt => cases k <;> simp [Leaf.cls, coreCls] at hcore
+          case kindT k nt ta o' => cases k <;> simp [Leaf.cls, coreCls] at hcore
           case funcAny => cases x <;> simp [itemFn, matchLeaf, matchLeafNode] at hx <;> rfl
       | kind k nt => exfalso; cases k <;> simp [Leaf.cls, coreCls_other, coreCls_nodeK] at hcore
+      | kindT k nt ta o' => exfalso; cases k <;> simp [Leaf.cls, coreCls_other, coreCls_nodeK] at hcore
       | numeric => exfalso; simp [Leaf.cls, coreCls_other] at hcore
       | docElem nt => exfalso; simp [Leaf.cls, coreCls_other] at hcore
       | mapAny => exfalso; simp [Leaf.cls, coreCls_other] at hcore
@@ -253,6 +264,7 @@ theorem item_sound (tb : Tables) (ht : tb.Trans) (hu : tb.InstUp) (xsd11 : Bool)
         | leaf l o =>
           cases l <;> simp [Ty.strip, Ty.cls, Leaf.cls, coreCls] at hcore
           case kind k nt => cases k <;> simp [Leaf.cls, coreCls] at hcore
+          case kindT k nt ta o' => cases k <;> simp [Leaf.cls, coreCls] at hcore
           case listT l2 => cases x <;> simp [itemFn, matchLeaf, matchLeafNode] at hx
       | anyType =>
         exfalso
@@ -264,6 +276,7 @@ theorem item_sound (tb : Tables) (ht : tb.Trans) (hu : tb.InstUp) (xsd11 : Bool)
         | leaf l o =>
           cases l <;> simp [Ty.strip, Ty.cls, Leaf.cls, coreCls] at hcore
           case kind k nt => cases k <;> simp [Leaf.cls, coreCls] at hcore
+          case kindT k nt ta o' => cases k <;> simp [Leaf.cls, coreCls] at hcore
           case listT l2 => cases x <;> simp [itemFn, matchLeaf, matchLeafNode] at hx
       | anySimpleType =>
         exfalso
@@ -275,6 +288,7 @@ theorem item_sound (tb : Tables) (ht : tb.Trans) (hu : tb.InstUp) (xsd11 : Bool)
         | leaf l o =>
           cases l <;> simp [Ty.strip, Ty.cls, Leaf.cls, coreCls] at hcore
           case kind k nt => cases k <;> simp [Leaf.cls, coreCls] at hcore
+          case kindT k nt ta o' => cases k <;> simp [Leaf.cls, coreCls] at hcore
           case listT l2 => cases x <;> simp [itemFn, matchLeaf, matchLeafNode] at hx
 
 /-! ### the theorem -/
@@ -292,6 +306,7 @@ theorem isRestriction_func_left (tb : Tables) (a : Tys) (r S : Ty) (hS : S ≠ .
     | leaf l o =>
       cases l <;> simp [Ty.strip, Ty.cls, Leaf.cls, coreCls] at hc
       case kind k nt => cases k <;> simp [Leaf.cls, coreCls] at hc
+      case kindT k nt ta o' => cases k <;> simp [Leaf.cls, coreCls] at hc
     | _ => simp [Ty.strip, Ty.cls, coreCls] at hc
 
 theorem hasMapArray_false_mem : ∀ (v : List Item), hasMapArray v = false → ∀ x ∈ v, x.isMapArray = false
